@@ -890,6 +890,8 @@ class Exec(ExprMixin, CallMixin):
             return True
         if isinstance(v, (AList, SliceView)):
             return self.branch(v.n > 0)
+        if isinstance(v, ASet):
+            return self.branch(v.lst.n > 0)
         if isinstance(v, Obj):
             ln, _ = self.index.find_method(v.cls, "__len__")
             if ln is not None:
